@@ -1,5 +1,6 @@
 import PdfModel.Core.Proto
 import PdfModel.Model.Enc
+import PdfModel.Spec.CodecsCheck
 
 /-! Line-protocol handler for the C05 streams (bytes as hex, `-` = empty).
 
@@ -15,6 +16,10 @@ import PdfModel.Model.Enc
              inputs that are not listed make the third-party decoder fail
   c05.pair <names> <parms>                        → `ok name=parm,…` | `err`
         names / parms: `null` | `bad` | `one:<tok>` | `arr:<tok|null>,…` (`arr:` = empty array)
+  statement side (certifies that what the harness generated lies in the domain of the theorems):
+  c05.conf <hex|a85|rl> <bytes> <text>            → `1` if `text` is in the encoder relation for `bytes` (sound checker), else `0`
+  c05.spec.png <bpp> <stride> <tags> <image>      → the specification's PNG prediction of the image (rows of `stride` bytes)
+  c05.spec.tiff <colors> <bpc> <columns> <stride> <image> → the specification's TIFF predictor 2
 -/
 
 namespace DrvC05
@@ -88,6 +93,11 @@ def predType (n : Nat) : Option PredictorType :=
   | 0 => some .noFilter | 1 => some .sub | 2 => some .up | 3 => some .avg | 4 => some .paeth
   | _ => none
 
+def chunkList (n : Nat) : Nat → Bytes → List Bytes
+  | 0, _ => []
+  | _ + 1, [] => []
+  | fuel + 1, l => l.take n :: chunkList n fuel (l.drop n)
+
 def handle (args : List String) : String :=
   match args with
   | ["c05.nibble", n] =>
@@ -129,6 +139,28 @@ def handle (args : List String) : String :=
         if pairs.isEmpty then "ok -" else s!"ok {joinWith "," (pairs.map fun (a, b) => s!"{a}={b}")}"
       | _, _ => "err"
     | _, _ => "bad-request"
+  | ["c05.conf", kind, bs, text] =>
+    match bytesOfHex bs, bytesOfHex text with
+    | some bs, some text =>
+      if kind == "hex" then showBool (Codecs.checkHex bs text)
+      else if kind == "a85" then showBool (Codecs.check85 bs text)
+      else if kind == "rl" then showBool (Codecs.checkRL bs text)
+      else "bad-request"
+    | _, _ => "bad-request"
+  | ["c05.spec.png", bpp, stride, tags, image] =>
+    match natOf bpp, natOf stride, bytesOfHex tags, bytesOfHex image with
+    | some bpp, some stride, some tags, some image =>
+      if stride = 0 then "bad-request" else
+      let rows := chunkList stride (image.length + 1) image
+      if rows.length ≠ tags.length then "bad-request" else
+      hexOfBytes (Codecs.pngPredictRows bpp (List.replicate stride 0) ((tags.map (·.toNat)).zip rows))
+    | _, _, _, _ => "bad-request"
+  | ["c05.spec.tiff", colors, bpc, columns, stride, image] =>
+    match natOf colors, natOf bpc, natOf columns, natOf stride, bytesOfHex image with
+    | some colors, some bpc, some columns, some stride, some image =>
+      if stride = 0 then "bad-request" else
+      hexOfBytes ((chunkList stride (image.length + 1) image).map (Codecs.tiffDiffRow colors bpc columns)).flatten
+    | _, _, _, _, _ => "bad-request"
   | _ => "bad-request"
 
 end DrvC05
